@@ -1,27 +1,28 @@
 #!/bin/bash
-# usage: benignmatrix.sh [ID ...] - runs each stored behaviour-preserving refactoring (seeded/benign/<ID>/patch.diff) against its
+# usage: [BENIGN_SET=benign2] benignmatrix.sh [ID ...] - runs each stored behaviour-preserving refactoring (seeded/<set>/<ID>/patch.diff) against its
 # property's quick check on a scratch worktree of /repo HEAD: the check must exit 0 and print no VIOLATION line.
 cd /verif
-ids=${@:-$(ls seeded/benign)}
+B=${BENIGN_SET:-benign}
+ids=${@:-$(ls seeded/$B)}
 mkdir -p /tmp/sm
 for id in $ids; do
-  wt=/tmp/sm/wt-b-$id
+  wt=/tmp/sm/wt-$B-$id
   git -C /repo worktree remove --force $wt 2>/dev/null
   git -C /repo worktree add -q --detach $wt HEAD || continue
-  if ! git -C $wt apply /verif/seeded/benign/$id/patch.diff; then echo -e "$id\tPATCH-FAILS"; git -C /repo worktree remove --force $wt; continue; fi
-  out=/tmp/sm/out-b-$id; rm -rf $out; mkdir -p $out
-  VERIF_REPO=$wt VERIF_GEN=/tmp/sm/gen-b-$id VERIF_OUT=$out PYTHONPATH=$wt/src VERIF_TIER=${TIER:-quick} /verif/.venv/bin/python -m vf.run $id > $out/log 2>&1
+  if ! git -C $wt apply /verif/seeded/$B/$id/patch.diff; then echo -e "$id\tPATCH-FAILS"; git -C /repo worktree remove --force $wt; continue; fi
+  out=/tmp/sm/out-$B-$id; rm -rf $out; mkdir -p $out
+  VERIF_REPO=$wt VERIF_GEN=/tmp/sm/gen-$B-$id VERIF_OUT=$out PYTHONPATH=$wt/src VERIF_TIER=${TIER:-quick} /verif/.venv/bin/python -m vf.run $id > $out/log 2>&1
   rc=$?
   nv=$(grep -a -c "^VIOLATION" $out/log)
   nd=$(grep -a "^\[$id\] Ob" $out/log | grep -a -c -v ": discharged\|: known-finding")
   echo -e "$id\texit=$rc\tviolations=$nv\tnot_discharged=$nd\t$(grep -a "^\[$id\] Ob" $out/log | grep -a -v ': discharged\|: known-finding' | cut -c1-160 | tr '\n' ';')"
-  /verif/.venv/bin/python - "$id" "$rc" "$nv" "$nd" <<'PY'
+  /verif/.venv/bin/python - "$id" "$rc" "$nv" "$nd" "$B" <<'PY'
 import json,sys
-i,rc,nv,nd=sys.argv[1:5]
-p=f'/verif/seeded/benign/{i}/meta.json'
+i,rc,nv,nd,B=sys.argv[1:6]
+p=f'/verif/seeded/{B}/{i}/meta.json'
 m=json.load(open(p))
 m['check_result']={"quick_check_exit":int(rc),"violations":int(nv),"obligations_not_discharged":int(nd),"false_alarm":int(rc)==1 or int(nv)>0}
 json.dump(m,open(p,'w'),indent=1)
 PY
-  git -C /repo worktree remove --force $wt; rm -rf /tmp/sm/gen-b-$id
-done | tee /tmp/sm/benign-last.tsv
+  git -C /repo worktree remove --force $wt; rm -rf /tmp/sm/gen-$B-$id
+done | tee /tmp/sm/$B-last.tsv
